@@ -30,7 +30,7 @@ use vh::props::c06::{population, results_strategy, spec_strategy};
 use vh::props::c14::ProbeFail;
 use vh::rngs::Counting;
 use vh::selharness::{build, Ind, Pop, Sel, Spec, E as SelErr};
-use vh::{Ctx, Fail, Probe, Tier};
+use vh::{guarded, Ctx, Fail, Probe, Tier};
 
 type R = Score<i64>;
 type PopS = Pop<R>;
@@ -203,8 +203,8 @@ where
     S2::Error: ErrView,
 {
     let (mut r1, mut r2) = (Counting::new(env.seed), Counting::new(env.seed));
-    let a = env.concrete.select(env.pop, &mut r1).map(|i| std::ptr::from_ref::<Ind<R>>(i)).map_err(|e| e.to_string());
-    let b = erased.select(env.pop, &mut r2).map(|i| std::ptr::from_ref::<Ind<R>>(i));
+    let Ok(a) = guarded(|| env.concrete.select(env.pop, &mut r1).map(|i| std::ptr::from_ref::<Ind<R>>(i)).map_err(|e| e.to_string())) else { return Ok(()) }; // a panicking concrete implementation is not this property's business
+    let b = match guarded(|| erased.select(env.pop, &mut r2).map(|i| std::ptr::from_ref::<Ind<R>>(i))) { Ok(b) => b, Err(p) => return Err(Fail::new("Selector/erased-form-panics", format!("{flavour}: the concrete call returned {a:?} but the erased form panicked: {p}"))) };
     compare("Selector", flavour, a, b, r1.fingerprint(), r2.fingerprint())
 }
 fn sel_oracle(c: &SelCase, probe: &mut Probe) -> Result<(), Fail> {
@@ -218,7 +218,7 @@ fn sel_oracle(c: &SelCase, probe: &mut Probe) -> Result<(), Fail> {
     let mk = || build::<R>(&c.spec).unwrap_or(Sel::Best);
     both_errors!(dyn_sel, SelErr, mk(), t_sel, &env, "Selector");
     let mut r = Counting::new(c.seed);
-    let _ = concrete.select(&pop, &mut r);
+    let _ = guarded(|| concrete.select(&pop, &mut r).is_ok());
     probe.nontrivial = r.words > 0;
     Ok(())
 }
@@ -261,8 +261,8 @@ where
     S2::Error: ErrView,
 {
     let (mut r1, mut r2) = (Counting::new(env.c.seed), Counting::new(env.c.seed));
-    let a = env.concrete.mutate(env.c.genome.clone(), &mut r1).map_err(|e| e.to_string());
-    let b = erased.mutate(env.c.genome.clone(), &mut r2);
+    let Ok(a) = guarded(|| env.concrete.mutate(env.c.genome.clone(), &mut r1).map_err(|e| e.to_string())) else { return Ok(()) }; // a panicking concrete implementation is not this property's business
+    let b = match guarded(|| erased.mutate(env.c.genome.clone(), &mut r2)) { Ok(b) => b, Err(p) => return Err(Fail::new("Mutator/erased-form-panics", format!("{flavour}: the concrete call returned {a:?} but the erased form panicked: {p}"))) };
     compare("Mutator", flavour, a, b, r1.fingerprint(), r2.fingerprint())
 }
 
@@ -292,8 +292,8 @@ where
     S2::Error: ErrView,
 {
     let (mut r1, mut r2) = (Counting::new(env.c.seed), Counting::new(env.c.seed));
-    let a = env.concrete.recombine([env.c.genome.clone(), env.c.other.clone()], &mut r1).map_err(|e| e.to_string());
-    let b = erased.recombine([env.c.genome.clone(), env.c.other.clone()], &mut r2);
+    let Ok(a) = guarded(|| env.concrete.recombine([env.c.genome.clone(), env.c.other.clone()], &mut r1).map_err(|e| e.to_string())) else { return Ok(()) }; // a panicking concrete implementation is not this property's business
+    let b = match guarded(|| erased.recombine([env.c.genome.clone(), env.c.other.clone()], &mut r2)) { Ok(b) => b, Err(p) => return Err(Fail::new("Recombinator/erased-form-panics", format!("{flavour}: the concrete call returned {a:?} but the erased form panicked: {p}"))) };
     compare("Recombinator", flavour, a, b, r1.fingerprint(), r2.fingerprint())
 }
 
@@ -307,8 +307,8 @@ where
     S2::Error: ErrView,
 {
     let (mut r1, mut r2) = (Counting::new(env.c.seed), Counting::new(env.c.seed));
-    let a = env.concrete.apply(env.c.genome.clone(), &mut r1).map_err(|e| e.to_string());
-    let b = erased.apply(env.c.genome.clone(), &mut r2);
+    let Ok(a) = guarded(|| env.concrete.apply(env.c.genome.clone(), &mut r1).map_err(|e| e.to_string())) else { return Ok(()) }; // a panicking concrete implementation is not this property's business
+    let b = match guarded(|| erased.apply(env.c.genome.clone(), &mut r2)) { Ok(b) => b, Err(p) => return Err(Fail::new("Operator/erased-form-panics", format!("{flavour}: the concrete call returned {a:?} but the erased form panicked: {p}"))) };
     compare("Operator", flavour, a, b, r1.fingerprint(), r2.fingerprint())
 }
 
@@ -402,8 +402,8 @@ where
         }
     }
     let (mut r1, mut r2) = (Counting::new(env.c.seed), Counting::new(env.c.seed));
-    let a = env.concrete.apply(env.c.genome.clone(), &mut r1).map_err(|e| e.to_string());
-    let b = erased.apply(env.c.genome.clone(), &mut r2).map_err(TextOnly);
+    let Ok(a) = guarded(|| env.concrete.apply(env.c.genome.clone(), &mut r1).map_err(|e| e.to_string())) else { return Ok(()) }; // a panicking concrete implementation is not this property's business
+    let b = match guarded(|| erased.apply(env.c.genome.clone(), &mut r2).map_err(TextOnly)) { Ok(b) => b, Err(p) => return Err(Fail::new("Operator/erased-form-panics", format!("{flavour}: the concrete call returned {a:?} but the erased form panicked: {p}"))) };
     compare("Operator", flavour, a, b, r1.fingerprint(), r2.fingerprint())
 }
 
@@ -446,8 +446,8 @@ where
     S2::Error: ErrView,
 {
     let (mut r1, mut r2) = (Counting::new(env.seed), Counting::new(env.seed));
-    let a = Cm { fail: env.fail }.make_child(&mut r1, env.pop, env.selector).map_err(|e| e.to_string());
-    let b = erased.make_child(&mut r2, env.pop, env.selector);
+    let Ok(a) = guarded(|| Cm { fail: env.fail }.make_child(&mut r1, env.pop, env.selector).map_err(|e| e.to_string())) else { return Ok(()) }; // a panicking concrete implementation is not this property's business
+    let b = match guarded(|| erased.make_child(&mut r2, env.pop, env.selector)) { Ok(b) => b, Err(p) => return Err(Fail::new("ChildMaker/erased-form-panics", format!("{flavour}: the concrete call returned {a:?} but the erased form panicked: {p}"))) };
     compare("ChildMaker", flavour, a, b, r1.fingerprint(), r2.fingerprint())
 }
 #[derive(Clone, Debug, Serialize, Deserialize)]
